@@ -146,7 +146,8 @@ class WeightedSum(Component):
                 if result is None:
                     result = value * weight
                 else:
-                    result += value * weight
+                    # not in place: the first product may be integer valued
+                    result = result + value * weight
 
             self._out_data = result
             self._last_update = time
